@@ -72,7 +72,7 @@ package roundrobin
 // ---- C02 through the rebalancer -------------------------------------------------------------
 
 //@ func (*Rebalancer).findServer
-//@   props C02 C10
+//@   props C02 C10 C20
 //@   holds rb.mtx
 //@   requires rbPoolOK(rb) && u != nil
 //@   ensures both: (result0 == nil) <==> (result1 == -1)
